@@ -37,6 +37,9 @@ type Harness struct {
 	Tiers          map[string]TierCfg `json:"tiers"`
 	Stubs          map[string]string  `json:"stubs"`
 	MulAbstraction bool               `json:"mul_abstraction"`
+	FPAbstraction  bool               `json:"fp_abstraction"`
+	Summarise      []string           `json:"summarise"`
+	precise        bool
 	MaxEnum        int                `json:"max_enum"`
 	AllowUnreached []string           `json:"allow_unreached"`
 	Outside        []string           `json:"outside_bounds"`
@@ -299,107 +302,32 @@ func main() {
 		}
 	}
 
-	// ---- explore
-	q := &workQueue{}
-	q.cond = sync.NewCond(&q.mu)
-	results := map[string]*HResult{}
+	rc := &runCtx{sh: sh, prog: prog, hf: harnessFiles, workers: *workers, solverBin: *solverBin, timeout: *timeout, logSMT: *logSMT, verbose: *verbose, prop: *prop, known: known}
+	results := rc.explore(sel)
+	replayDir := filepath.Join(verifDir, "replay", *prop)
+	os.RemoveAll(replayDir)
+	oc := rc.judge(sel, results, replayDir)
+	// second pass: harnesses run under an over-approximating abstraction whose counterexample did not
+	// reproduce natively are re-run precisely (no abstraction); the precise run replaces the abstract one.
+	var again []*Harness
 	for _, h := range sel {
-		results[h.ID] = &HResult{ID: h.ID, Func: h.Func, Desc: h.Desc, Sites: map[string]*siteStat{}, Bounds: h.Bounds, Unwind: h.Unwind,
-			funcs: map[string]bool{}, notes: map[string]bool{}, StaticSites: staticSites(h.fn, harnessFiles, prog)}
-		q.push(task{h: h})
+		if oc.unconfirmed[h.ID] && (h.MulAbstraction || h.FPAbstraction) && !h.precise {
+			h.precise = true
+			again = append(again, h)
+		}
 	}
-	var wg sync.WaitGroup
-	for w := 0; w < *workers; w++ {
-		wg.Add(1)
-		go func(w int) {
-			defer wg.Done()
-			logPath := ""
-			if *logSMT != "" {
-				os.MkdirAll(*logSMT, 0o755)
-				logPath = filepath.Join(*logSMT, fmt.Sprintf("worker%d.smt2", w))
-			}
-			solver := newSolver(*solverBin, *timeout, logPath)
-			defer solver.close()
-			execs := map[string]*Exec{}
-			for {
-				t, ok := q.pop()
-				if !ok {
-					break
-				}
-				e := execs[t.h.ID]
-				if e == nil {
-					e = &Exec{}
-					*e = *newExecNoSolver(sh, t.h)
-					e.solver = solver
-					h := t.h
-					e.emit = func(p []uint64) { q.push(task{h: h, prefix: p}) }
-					execs[t.h.ID] = e
-				}
-				q0, st0 := solver.queries, solver.time
-				outc := e.runPath(t.prefix, t.h.fn)
-				r := results[t.h.ID]
-				r.mu.Lock()
-				r.Paths++
-				switch outc.kind {
-				case "done":
-					r.Done++
-				case "infeasible":
-					r.Infeasible++
-				case "panic":
-					r.Panicked++
-				case "stop":
-					r.Stopped++
-				case "abort":
-					r.Aborted++
-					r.Inconcl = appendUniq(r.Inconcl, outc.reason)
-				}
-				r.Queries += solver.queries - q0
-				r.SolverTime += (solver.time - st0).Seconds()
-				if *verbose {
-					fmt.Fprintf(os.Stderr, "[%s] path %v -> %s %s (steps %d)\n", t.h.ID, t.prefix, outc.kind, outc.reason, e.steps)
-				}
-				r.mu.Unlock()
-				q.done()
-			}
-			// merge
-			for id, e := range execs {
-				r := results[id]
-				r.mu.Lock()
-				r.Steps += e.totalSteps
-				for f := range e.funcsSeen {
-					r.funcs[f.String()] = true
-				}
-				for n := range e.notes {
-					r.notes[n] = true
-				}
-				for sid, s := range e.sites {
-					d := r.Sites[sid]
-					if d == nil {
-						d = &siteStat{}
-						r.Sites[sid] = d
-					}
-					d.Reached += s.Reached
-					d.Trivial += s.Trivial
-					d.Discharged += s.Discharged
-					d.Failed += s.Failed
-					d.Unknown += s.Unknown
-					d.Known += s.Known
-				}
-				for _, in := range e.incon {
-					r.Inconcl = appendUniq(r.Inconcl, in)
-				}
-				r.cexs = append(r.cexs, e.cexs...)
-				if solver.errors > 0 {
-					r.Inconcl = appendUniq(r.Inconcl, "solver reported errors: "+solver.lastErr)
-				}
-				r.mu.Unlock()
-			}
-		}(w)
+	if len(again) > 0 {
+		fmt.Printf("re-running %d harness(es) without abstraction (abstract counterexample did not reproduce)\n", len(again))
+		r2 := rc.explore(again)
+		for id, r := range r2 {
+			r.Desc += " [precise re-run: abstractions off]"
+			results[id] = r
+		}
+		oc = rc.judge(sel, results, replayDir)
 	}
-	wg.Wait()
-
+	inconclusive := oc.inconclusive
+	violations, knownHits, replays, outLines, sampleCex := oc.violations, oc.knownHits, oc.replays, oc.lines, oc.samples
 	// ---- vacuity
-	inconclusive := false
 	for _, h := range sel {
 		r := results[h.ID]
 		allow := map[string]bool{}
@@ -419,77 +347,6 @@ func main() {
 		}
 		if len(r.Inconcl) > 0 {
 			inconclusive = true
-		}
-	}
-
-	// ---- counterexamples: dedupe per (harness, id, known), replay natively
-	type cexKey struct{ h, id, known string }
-	picked := map[cexKey]*Cex{}
-	var order []cexKey
-	for _, h := range sel {
-		for _, c := range results[h.ID].cexs {
-			k := cexKey{c.Harness, c.ID, c.Known}
-			if _, ok := picked[k]; !ok {
-				picked[k] = c
-				order = append(order, k)
-			}
-		}
-	}
-	sort.Slice(order, func(i, j int) bool {
-		if order[i].h != order[j].h {
-			return order[i].h < order[j].h
-		}
-		if order[i].id != order[j].id {
-			return order[i].id < order[j].id
-		}
-		return order[i].known < order[j].known
-	})
-	replayDir := filepath.Join(verifDir, "replay", *prop)
-	os.RemoveAll(replayDir)
-	violations := 0
-	knownHits := 0
-	replays := 0
-	var outLines []string
-	var sampleCex []interface{}
-	if len(order) > 0 {
-		os.MkdirAll(replayDir, 0o755)
-		hmap := map[string]*Harness{}
-		for _, h := range sel {
-			hmap[h.ID] = h
-		}
-		var files []string
-		for i, k := range order {
-			c := picked[k]
-			h := hmap[c.Harness]
-			p := filepath.Join(replayDir, fmt.Sprintf("%s_%s_%d.json", sanitize(c.Harness), sanitize(c.ID), i))
-			rec := map[string]interface{}{"property": *prop, "harness": c.Harness, "func": h.Func, "pkg": h.Pkg, "assert_id": c.ID,
-				"what": c.What, "known_finding": c.Known, "values": c.Values, "kinds": c.Kinds, "site": c.Site, "bounds": h.Bounds,
-				"replay_cmd": fmt.Sprintf("%s/bin/replay %s", verifDir, p)}
-			raw, _ := json.MarshalIndent(rec, "", " ")
-			os.WriteFile(p, raw, 0o644)
-			files = append(files, p)
-		}
-		confirmed := nativeReplay(sel, files)
-		replays = len(files)
-		for i, k := range order {
-			c := picked[k]
-			p := files[i]
-			res := confirmed[p]
-			kf := known[c.Known]
-			isKnown := c.Known != "" && kf != nil && kf.Status == "open" && kf.Property == *prop
-			sampleCex = append(sampleCex, map[string]interface{}{"harness": c.Harness, "assert_id": c.ID, "inputs": c.Values, "native_replay": res, "known_finding": c.Known})
-			switch {
-			case res != "confirmed" && !hmap[c.Harness].NoReplay:
-				inconclusive = true
-				outLines = append(outLines, fmt.Sprintf("UNCONFIRMED property=%s harness=%s assert=%s native=%s replay=%s", *prop, c.Harness, c.ID, res, p))
-			case isKnown:
-				knownHits++
-				outLines = append(outLines, fmt.Sprintf("KNOWN-FINDING: property=%s %s [%s; harness=%s assert=%s replay=%s]", *prop, kf.Text, kf.ID, c.Harness, c.ID, p))
-			default:
-				violations++
-				outLines = append(outLines, fmt.Sprintf("VIOLATION property=%s replay=%s", *prop, p))
-				outLines = append(outLines, fmt.Sprintf("  harness=%s assert=%s %s site=%s inputs=%v", c.Harness, c.ID, c.What, c.Site, c.Values))
-			}
 		}
 	}
 
@@ -533,12 +390,13 @@ func newExecNoSolver(sh *Shared, h *Harness) *Exec {
 	if e.unwind == 0 {
 		e.unwind = 16
 	}
-	e.maxIte = 64
+	e.maxIte = 300
 	e.maxEnum = h.MaxEnum
 	if e.maxEnum == 0 {
 		e.maxEnum = 64
 	}
-	e.mulAbstraction = h.MulAbstraction
+	e.mulAbstraction = h.MulAbstraction && !h.precise
+	e.fpAbstraction = h.FPAbstraction && !h.precise
 	return e
 }
 
@@ -859,4 +717,205 @@ func keys(m map[string]bool) []string {
 	}
 	sort.Strings(r)
 	return r
+}
+
+type runCtx struct {
+	sh        *Shared
+	prog      *ssa.Program
+	hf        map[string]bool
+	workers   int
+	solverBin string
+	timeout   int
+	logSMT    string
+	verbose   bool
+	prop      string
+	known     map[string]*KnownFinding
+}
+
+func (rc *runCtx) explore(sel []*Harness) map[string]*HResult {
+	sh, prog, harnessFiles := rc.sh, rc.prog, rc.hf
+	workers, solverBin, timeout, logSMT, verbose := &rc.workers, &rc.solverBin, &rc.timeout, &rc.logSMT, &rc.verbose
+	q := &workQueue{}
+	q.cond = sync.NewCond(&q.mu)
+	results := map[string]*HResult{}
+	for _, h := range sel {
+		results[h.ID] = &HResult{ID: h.ID, Func: h.Func, Desc: h.Desc, Sites: map[string]*siteStat{}, Bounds: h.Bounds, Unwind: h.Unwind,
+			funcs: map[string]bool{}, notes: map[string]bool{}, StaticSites: staticSites(h.fn, harnessFiles, prog)}
+		q.push(task{h: h})
+	}
+	var wg sync.WaitGroup
+	for w := 0; w < *workers; w++ {
+		wg.Add(1)
+		go func(w int) {
+			defer wg.Done()
+			logPath := ""
+			if *logSMT != "" {
+				os.MkdirAll(*logSMT, 0o755)
+				logPath = filepath.Join(*logSMT, fmt.Sprintf("worker%d.smt2", w))
+			}
+			solver := newSolver(*solverBin, *timeout, logPath)
+			defer solver.close()
+			execs := map[string]*Exec{}
+			for {
+				t, ok := q.pop()
+				if !ok {
+					break
+				}
+				e := execs[t.h.ID]
+				if e == nil {
+					e = &Exec{}
+					*e = *newExecNoSolver(sh, t.h)
+					e.solver = solver
+					h := t.h
+					e.emit = func(p []uint64) { q.push(task{h: h, prefix: p}) }
+					execs[t.h.ID] = e
+				}
+				q0, st0 := solver.queries, solver.time
+				outc := e.runPath(t.prefix, t.h.fn)
+				r := results[t.h.ID]
+				r.mu.Lock()
+				r.Paths++
+				switch outc.kind {
+				case "done":
+					r.Done++
+				case "infeasible":
+					r.Infeasible++
+				case "panic":
+					r.Panicked++
+				case "stop":
+					r.Stopped++
+				case "abort":
+					r.Aborted++
+					r.Inconcl = appendUniq(r.Inconcl, outc.reason)
+				}
+				r.Queries += solver.queries - q0
+				r.SolverTime += (solver.time - st0).Seconds()
+				if *verbose {
+					fmt.Fprintf(os.Stderr, "[%s] path %v -> %s %s (steps %d)\n", t.h.ID, t.prefix, outc.kind, outc.reason, e.steps)
+				}
+				r.mu.Unlock()
+				q.done()
+			}
+			// merge
+			for id, e := range execs {
+				r := results[id]
+				r.mu.Lock()
+				r.Steps += e.totalSteps
+				for f := range e.funcsSeen {
+					r.funcs[f.String()] = true
+				}
+				for n := range e.notes {
+					r.notes[n] = true
+				}
+				for sid, s := range e.sites {
+					d := r.Sites[sid]
+					if d == nil {
+						d = &siteStat{}
+						r.Sites[sid] = d
+					}
+					d.Reached += s.Reached
+					d.Trivial += s.Trivial
+					d.Discharged += s.Discharged
+					d.Failed += s.Failed
+					d.Unknown += s.Unknown
+					d.Known += s.Known
+				}
+				for _, in := range e.incon {
+					r.Inconcl = appendUniq(r.Inconcl, in)
+				}
+				r.cexs = append(r.cexs, e.cexs...)
+				if solver.errors > 0 {
+					r.Inconcl = appendUniq(r.Inconcl, "solver reported errors: "+solver.lastErr)
+				}
+				r.mu.Unlock()
+			}
+		}(w)
+	}
+	wg.Wait()
+
+	return results
+}
+
+type cexOutcome struct {
+	violations, knownHits, replays int
+	inconclusive bool
+	lines     []string
+	samples   []interface{}
+	unconfirmed map[string]bool // harness ids with unconfirmed counterexamples
+}
+
+func (rc *runCtx) judge(sel []*Harness, results map[string]*HResult, replayDir string) *cexOutcome {
+	prop, known := &rc.prop, rc.known
+	oc := &cexOutcome{unconfirmed: map[string]bool{}}
+	inconclusive := false
+	violations, knownHits, replays := 0, 0, 0
+	var outLines []string
+	var sampleCex []interface{}
+	// ---- counterexamples: dedupe per (harness, id, known), replay natively
+	type cexKey struct{ h, id, known string }
+	picked := map[cexKey]*Cex{}
+	var order []cexKey
+	for _, h := range sel {
+		for _, c := range results[h.ID].cexs {
+			k := cexKey{c.Harness, c.ID, c.Known}
+			if _, ok := picked[k]; !ok {
+				picked[k] = c
+				order = append(order, k)
+			}
+		}
+	}
+	sort.Slice(order, func(i, j int) bool {
+		if order[i].h != order[j].h {
+			return order[i].h < order[j].h
+		}
+		if order[i].id != order[j].id {
+			return order[i].id < order[j].id
+		}
+		return order[i].known < order[j].known
+	})
+	if len(order) > 0 {
+		os.MkdirAll(replayDir, 0o755)
+		hmap := map[string]*Harness{}
+		for _, h := range sel {
+			hmap[h.ID] = h
+		}
+		var files []string
+		for i, k := range order {
+			c := picked[k]
+			h := hmap[c.Harness]
+			p := filepath.Join(replayDir, fmt.Sprintf("%s_%s_%d.json", sanitize(c.Harness), sanitize(c.ID), i))
+			rec := map[string]interface{}{"property": *prop, "harness": c.Harness, "func": h.Func, "pkg": h.Pkg, "assert_id": c.ID,
+				"what": c.What, "known_finding": c.Known, "values": c.Values, "kinds": c.Kinds, "site": c.Site, "bounds": h.Bounds,
+				"replay_cmd": fmt.Sprintf("%s/bin/replay %s", verifDir, p)}
+			raw, _ := json.MarshalIndent(rec, "", " ")
+			os.WriteFile(p, raw, 0o644)
+			files = append(files, p)
+		}
+		confirmed := nativeReplay(sel, files)
+		replays = len(files)
+		for i, k := range order {
+			c := picked[k]
+			p := files[i]
+			res := confirmed[p]
+			kf := known[c.Known]
+			isKnown := c.Known != "" && kf != nil && kf.Status == "open" && kf.Property == *prop
+			sampleCex = append(sampleCex, map[string]interface{}{"harness": c.Harness, "assert_id": c.ID, "inputs": c.Values, "native_replay": res, "known_finding": c.Known})
+			switch {
+			case res != "confirmed" && !hmap[c.Harness].NoReplay:
+				inconclusive = true
+				oc.unconfirmed[c.Harness] = true
+				outLines = append(outLines, fmt.Sprintf("UNCONFIRMED property=%s harness=%s assert=%s native=%s replay=%s", *prop, c.Harness, c.ID, res, p))
+			case isKnown:
+				knownHits++
+				outLines = append(outLines, fmt.Sprintf("KNOWN-FINDING: property=%s %s [%s; harness=%s assert=%s replay=%s]", *prop, kf.Text, kf.ID, c.Harness, c.ID, p))
+			default:
+				violations++
+				outLines = append(outLines, fmt.Sprintf("VIOLATION property=%s replay=%s", *prop, p))
+				outLines = append(outLines, fmt.Sprintf("  harness=%s assert=%s %s site=%s inputs=%v", c.Harness, c.ID, c.What, c.Site, c.Values))
+			}
+		}
+	}
+
+	oc.violations, oc.knownHits, oc.replays, oc.inconclusive, oc.lines, oc.samples = violations, knownHits, replays, inconclusive, outLines, sampleCex
+	return oc
 }
